@@ -61,6 +61,7 @@ def parse_state_key(key: str, containers: list[str]) -> tuple[list, bool]:
 _EDGE_RE = re.compile(r"^\s*([A-Za-z0-9_]+)\s*(-->|-\.->|==>|---)\s*(?:\|[^|]*\|\s*)?([A-Za-z0-9_]+)\s*$")
 _NODE_RE = re.compile(r"^\s*([A-Za-z0-9_]+)\s*(\[|\(|\{)")
 _SUB_RE = re.compile(r"^\s*subgraph\s+([A-Za-z0-9_]+)")
+_INPUT_RE = re.compile(r"^\s*(input_[A-Za-z0-9_]+)\(\[\"(.*)\"\]\)\s*$", re.M)
 
 
 def _san(node_id: str) -> str:
@@ -215,7 +216,7 @@ class C20(Prop):
     )
     budgets = {"quick": 120, "thorough": 2500}
     assumptions = ["the checker accepts any visible node inside a container as the endpoint for renamed ports / gate targets (stand = rep + visible descendants)",
-                   "edges out of INPUT nodes and into END nodes are only checked for declared endpoints", "the JavaScript half of the viewer is outside the model"]
+                   "edges out of INPUT nodes are judged outside the Lean checker by a direct rule over the top-level nodes (each taker reached, no edge to a non-taker); edges into END nodes are only checked for declared endpoints", "the JavaScript half of the viewer is outside the model"]
 
     def __init__(self) -> None:
         self._driver: Any = None
@@ -230,11 +231,17 @@ class C20(Prop):
         """Two sibling containers exchanging SEVERAL values: each value has its own producer inside `prod` and its own consumer inside
         `cons` (sometimes one level deeper): every value must be drawn between ITS producer and ITS consumers only."""
         k = rng.randint(2, 3)
-        pn = [{"name": f"p{i}", "kind": "fn", "params": [["x", None]] if i == 0 or rng.random() < 0.5 else [[f"v{i - 1}", None]],
-               "dataOuts": [f"v{i}"], "body": {"b": "tag", "t": f"p{i}"}} for i in range(k)]
+        # half of the time the value names CONTAIN one another ("v", "v_r", "v_r_r"): an edge must follow the exact name, never a look-alike
+        nest = rng.random() < 0.5
+
+        def v(i: int) -> str:
+            return "v" + "_r" * i if nest else f"v{i}"
+
+        pn = [{"name": f"p{i}", "kind": "fn", "params": [["x", None]] if i == 0 or rng.random() < 0.5 else [[v(i - 1), None]],
+               "dataOuts": [v(i)], "body": {"b": "tag", "t": f"p{i}"}} for i in range(k)]
         cn = []
         for i in range(k):
-            params = [[f"v{i}", None]]
+            params = [[v(i), None]]
             if i and rng.random() < 0.5:
                 params.append([f"c{i - 1}", None])
             elif rng.random() < 0.4:
@@ -247,18 +254,48 @@ class C20(Prop):
         top: list[dict] = [{"name": "prod", "kind": "graph", "inner": 0}]
         if rng.random() < 0.5:
             prog.append({"name": "outer", "nodes": [{"name": "cons", "kind": "graph", "inner": 1},
-                                                    {"name": "z", "kind": "fn", "params": [[f"c{k - 1}", None], ["v0", None]], "dataOuts": ["zz"], "body": {"b": "tag", "t": "z"}}], "bound": []})
+                                                    {"name": "z", "kind": "fn", "params": [[f"c{k - 1}", None], [v(0), None]], "dataOuts": ["zz"], "body": {"b": "tag", "t": "z"}}], "bound": []})
             top.append({"name": "outer", "kind": "graph", "inner": 2})
         else:
             top.append({"name": "cons", "kind": "graph", "inner": ci})
-            top.append({"name": "z", "kind": "fn", "params": [[f"c{k - 1}", None], [f"v{k - 1}", None]], "dataOuts": ["zz"], "body": {"b": "tag", "t": "z"}})
+            top.append({"name": "z", "kind": "fn", "params": [[f"c{k - 1}", None], [v(rng.randrange(k)), None]], "dataOuts": ["zz"], "body": {"b": "tag", "t": "z"}})
         rng.shuffle(top)
         prog.append({"name": "root", "nodes": top, "bound": []})
         return prog
 
+    @staticmethod
+    def _renamed_shared_input(rng: random.Random) -> list[dict]:
+        """A wrapper whose inner input is exposed under ANOTHER name, which a sibling (and sometimes a second wrapper) takes too: the
+        graph input must reach every one of its takers in every expansion state."""
+        inner = {"name": "prep", "nodes": [{"name": "a", "kind": "fn", "params": [["t", None]], "dataOuts": ["c"], "body": {"b": "tag", "t": "a"}},
+                                           {"name": "b", "kind": "fn", "params": [["c", None], ["l", None]], "dataOuts": ["tk"], "body": {"b": "tag", "t": "b"}}], "bound": []}
+        prog = [inner]
+        top: list[dict] = [{"name": "prep", "kind": "graph", "inner": 0, "inRen": [["t", "doc"]]}]
+        if rng.random() < 0.7:
+            top.append({"name": "s", "kind": "fn", "params": [["tk", None], ["doc", None]], "dataOuts": ["rep"], "body": {"b": "tag", "t": "s"}})
+        else:
+            top.append({"name": "s", "kind": "fn", "params": [["tk", None]], "dataOuts": ["rep"], "body": {"b": "tag", "t": "s"}})
+        if rng.random() < 0.4:
+            prog.append({"name": "other", "nodes": [{"name": "u", "kind": "fn", "params": [["w", None]], "dataOuts": ["uu"], "body": {"b": "tag", "t": "u"}}], "bound": []})
+            top.append({"name": "other", "kind": "graph", "inner": 1, "inRen": [["w", rng.choice(["doc", "l"])]]})
+        if rng.random() < 0.35:
+            top.insert(0, {"name": "load", "kind": "fn", "params": [["path", None]], "dataOuts": ["doc"], "body": {"b": "tag", "t": "load"}})
+        rng.shuffle(top)
+        prog.append({"name": "root", "nodes": top, "bound": []})
+        if rng.random() < 0.3:
+            prog.append({"name": "top", "nodes": [{"name": "root", "kind": "graph", "inner": len(prog) - 1},
+                                                  {"name": "fin", "kind": "fn", "params": [["rep", None], ["doc", None]], "dataOuts": ["done"], "body": {"b": "tag", "t": "fin"}}], "bound": []})
+        return prog
+
     def cases(self, rng: random.Random, tier: str) -> Iterable[dict]:
-        forced = [True, True]
+        forced = [True] * 6
+        forced_in = [True] * 6
         while True:
+            if forced_in or rng.random() < 0.05:
+                if forced_in:
+                    forced_in.pop()
+                yield {"program": self._renamed_shared_input(rng)}
+                continue
             if forced or rng.random() < 0.06:
                 if forced:
                     forced.pop()
@@ -323,7 +360,8 @@ class C20(Prop):
         spec_diff = None
         if (list(fspec.get("required", ())), list(fspec.get("optional", ())), sorted(fspec.get("bound", {}))) != (list(spec.required), list(spec.optional), sorted(spec.bound)):
             spec_diff = f"flattened graph carries inputs {fspec}, the graph's own inputs are required={spec.required} optional={spec.optional} bound={sorted(spec.bound)}"
-        drawn_inputs = None
+        graph_inputs = {"free": list(spec.required) + list(spec.optional), "bound": sorted(spec.bound)}
+        in_edges: list[list] = []               # per diagram: [[params of the INPUT node, target id], ...]
         containers = list(r["meta"].get("expandableNodes", []))
         checks = []
         keys = []
@@ -335,6 +373,14 @@ class C20(Prop):
             ns, es = diagram_payload(nodes, edges)
             checks.append({"state": st, "sep": sep, "nodes": ns, "edges": es})
             keys.append(key)
+            params_of = {}
+            for n in nodes:
+                d = n.get("data", {})
+                if d.get("nodeType") == "INPUT":
+                    params_of[n["id"]] = [d.get("label")]
+                elif d.get("nodeType") == "INPUT_GROUP":
+                    params_of[n["id"]] = list(d.get("params") or [])
+            in_edges.append([[params_of[e["source"]], e["target"]] for e in edges if e["source"] in params_of])
         extra = [k for k in r["meta"]["edgesByState"] if k not in r["meta"]["nodesByState"]]
         # Mermaid at every depth, both modes: parsed back into nodes / edges and decided by the same checker
         container_ids = [n["id"] for n in flat if n["kind"] == "GRAPH"]
@@ -349,9 +395,14 @@ class C20(Prop):
                     return {"error": f"to_mermaid(depth={depth}): {type(e).__name__}: {e}"[:300]}
                 st = [[cid, cid in expanded] for cid in container_ids]
                 checks.append({"state": st, "sep": sep, "nodes": ns, "edges": es})
+                params_of = {m.group(1): [q.split(":")[0].strip() for q in m.group(2).split("<br/>")] for m in _INPUT_RE.finditer(str(src))}
+                in_edges.append([[params_of[e["source"]], e["target"]] for e in es if e["source"] in params_of])
                 keys.append(f"mermaid:depth={depth}|sep:{int(sep)}")
         resp = self.driver().ask({"op": "viz", "flat": flat, "checks": checks})
-        return {"spec_diff": spec_diff, "flat": [[n["id"], n["parent"]] for n in flat], "keys": keys, "extra_edge_states": extra, "containers": containers,
+        # Mermaid leaves out, by documented design (_get_input_targets), the input edge to a gate's target when the gate itself takes that input
+        gate_fed = {n["id"]: sorted({p for m in flat if m["parent"] is None and n["id"] in m["targets"] for p in m["inputs"]}) for n in flat if n["parent"] is None}
+        roots = [[n["id"], [p for p in n["inputs"] if p not in gate_fed.get(n["id"], ())], n["inputs"]] for n in flat if n["parent"] is None and not n["hidden"]]
+        return {"spec_diff": spec_diff, "flat": [[n["id"], n["parent"]] for n in flat], "keys": keys, "graph_inputs": graph_inputs, "in_edges": in_edges, "roots": roots, "extra_edge_states": extra, "containers": containers,
                 "results": resp["results"], "validStates": resp["validStates"], "n_deps": len(resp["deps"]),
                 "sizes": [[len(c["nodes"]), len(c["edges"])] for c in checks]}
 
@@ -376,6 +427,22 @@ class C20(Prop):
         for key, res in zip(obs["keys"], obs["results"]):
             if not res["ok"]:
                 return f"diagram for state {key!r} is not faithful: {res['explain'][:6]}"
+        # graph inputs are the producers of the values the caller supplies: every top-level node that takes one must be reached from the
+        # input's node (at the node itself or, for a container, anywhere inside it), and an input edge must lead to (or into) a taker
+        free, every = obs["graph_inputs"]["free"], obs["graph_inputs"]["free"] + obs["graph_inputs"]["bound"]
+
+        def within(t: str, nid: str) -> bool:
+            return t == nid or t.startswith(nid + "/")
+
+        for key, ies in zip(obs["keys"], obs["in_edges"]):
+            for nid, ins, _all in obs["roots"]:
+                for p in ins:
+                    if p in free and not any(p in ps and within(t, nid) for ps, t in ies):
+                        return f"diagram for state {key!r}: graph input {p!r} is taken by {nid!r} but no edge leads from the input to it (or into it); input edges: {ies}"
+            for ps, t in ies:
+                takers = [nid for nid, _ins, _all in obs["roots"] if within(t, nid)]
+                if len(ps) == 1 and ps[0] in every and takers and not any(ps[0] in allins for nid, _ins, allins in obs["roots"] if nid in takers):
+                    return f"diagram for state {key!r}: input edge {ps[0]} -> {t} leads to {takers[0]!r}, which does not take that input"
         return None
 
     def model(self, case: dict, driver: Any) -> Any:
